@@ -62,14 +62,20 @@ fn cycle_refs<T>(this: Link<T>) -> HashMap<Link<T>, usize> {
         for (&link, &strong) in links.iter() {
             #[cfg(feature = "verif")]
             crate::verif::bump(&crate::verif::TRACE_ENTRIES_SCANNED);
-            if let Kind::Forward | Kind::Loopback = link.kind() {
-                cycle_owned_refs
-                    .entry(link)
-                    .and_modify(|count| *count += strong)
-                    .or_insert(strong);
-                discovered.push(link);
-            } else {
-                cycle_owned_refs.entry(link.as_forward()).or_default();
+            match link.kind() {
+                Kind::Forward => {
+                    cycle_owned_refs
+                        .entry(link)
+                        .and_modify(|count| *count += strong)
+                        .or_insert(strong);
+                    discovered.push(link);
+                }
+                Kind::Backward => {
+                    cycle_owned_refs.entry(link.as_forward()).or_default();
+                }
+                // Adopting an `Rc` through the very same handle has no effect:
+                // it neither owns a strong reference nor leads anywhere new.
+                Kind::Loopback => {}
             }
         }
     }
